@@ -180,7 +180,14 @@ func (c10) Exec(c Case) []string {
 			xmpp.VerifSetTransport(client, xt)
 			xmpp.VerifSessionTransport(client.Session, xt)
 			cfg.StreamManagementEnable = true
-			res := negProp{}.oneConn(client, cfg, xt, happy(false, false, true).with("res", op[1], "smid", hx("sm-next")), 0)
+			// h of <resumed/>: what the server has handled = what was acknowledged so far (nothing more is acknowledged
+			// by the resumption itself); the reconnection goes through Client.Resume
+			rh := 0
+			if q := client.Session.SMState.UnAckQueue; q != nil && len(q.Uslice) > 0 {
+				rh = q.Uslice[0].Id - 1
+			}
+			res := negProp{}.oneConn(client, cfg, xt, happy(false, false, true).with("res", op[1], "smid", hx("sm-next"), "via", "resume", "resh", strconv.Itoa(rh)), 0)
+			time.Sleep(5 * time.Millisecond)
 			if op[1] == "otherid" && strings.HasPrefix(res, "out=failed") {
 				// a <resumed/> that confirms another id ends that connection attempt with an error (and drops the
 				// state); the application connects again and gets a new session
